@@ -249,6 +249,8 @@ func c18(p *P) {
 
 	// ---- R3 admission
 	p.gEquality("C18.R3")
+	p.gOptionStores("C18.R3")
+	p.gPrefixLoopAlwaysRuns("C18.R6")
 	if fn := p.fn("C18.R3", "chainexchange.PubSubChainExchange.validatePubSubMessage"); fn != nil {
 		// one snapshot of the node's progress decides range AND base: reading it twice lets the instance advance in between
 		nProg := 0
